@@ -339,6 +339,33 @@ def _vec_sort(e, c, a):
     return UNIT
 
 
+@model(r'(?:Vec::<.*>|(?:core|std|alloc)::slice::<impl \[.*\]>)::(sort_by|sort_unstable_by|sort_by_key|sort_unstable_by_key|sort_by_cached_key)::<.*>', 'slice::sort_by* (stable merge by the closure; every comparison outcome that is feasible is explored)')
+def _vec_sort_by(e, c, a):
+    from .m_map import key_cmp
+    import functools
+    k, o = seq_of(a[0])
+    cells = o.e if k == 'seq' else o.cells()
+    vals = [cl.v for cl in cells]
+    clo = a[1]
+    by_key = '_key' in c
+
+    def cmp(x, y):
+        if by_key:
+            kx = e.call_closure(clo, [Ref(Cell(x))]); ky = e.call_closure(clo, [Ref(Cell(y))])
+            return key_cmp(e, kx, ky)
+        r = deref_all(e.call_closure(clo, [Ref(Cell(x)), Ref(Cell(y))]))
+        v = e.concretize(Int(r.t, 8, True)) if isinstance(r, Int) else None
+        if v is None:
+            raise Unsupported('sort_by closure result %r' % (r,))
+        if v >= 128:
+            v -= 256
+        return v
+    vals.sort(key=functools.cmp_to_key(cmp))        # python's sort is stable, like slice::sort_by
+    for cl, v in zip(cells, vals):
+        cl.v = v
+    return UNIT
+
+
 @model(r'Vec::<.*>::into_boxed_slice')
 def _vec_into_boxed(e, c, a):
     return Opaque('box', cell=Cell(a[0]), rt='Box')
